@@ -15,6 +15,9 @@ package mmap
 
 //@ ghost minsize int
 
+// The descriptor a Data was created with never changes.
+//@ field-constraint Data.f: new == old
+
 // SpecValid is the representation invariant of a Data that Mmap returned.
 func SpecValid(d *Data) bool { return d != nil && d.f != nil }
 
